@@ -37,6 +37,8 @@ type Env struct {
 	calleeCon *Contract
 	logPrefix string
 	depth     int
+	goal      bool // the formula is being proved (true) or assumed (false)
+	pol       int  // polarity of the current subformula: +1, -1, 0 (unknown)
 }
 
 func (vc *FuncVC) newEnv(st, old *State) *Env {
@@ -52,7 +54,22 @@ func (e *Env) child() *Env {
 	return &n
 }
 
+// evalGoal evaluates a clause that is about to be proved; evalBool one that is assumed.
+func (vc *FuncVC) evalGoal(env *Env, c *Clause) Term {
+	n := *env
+	n.goal = true
+	n.pol = 1
+	return vc.evalBool0(&n, c)
+}
+
 func (vc *FuncVC) evalBool(env *Env, c *Clause) Term {
+	n := *env
+	n.goal = false
+	n.pol = 1
+	return vc.evalBool0(&n, c)
+}
+
+func (vc *FuncVC) evalBool0(env *Env, c *Clause) Term {
 	defer func() {
 		if r := recover(); r != nil {
 			panic(fmt.Errorf("%s:%d: in %q: %v", c.File, c.Line, c.Src, r))
@@ -274,6 +291,28 @@ func (vc *FuncVC) debugValue(name string, b *ssa.BasicBlock) *CVal {
 			best = d
 		}
 	}
+	// a phi named like the variable in a dominating block (or b itself) that is
+	// at least as close as the DebugRef holds the current value
+	var bestPhi *ssa.Phi
+	for _, blk := range vc.Fn.Blocks {
+		if blk != b && !blk.Dominates(b) {
+			continue
+		}
+		for _, in := range blk.Instrs {
+			ph, ok := in.(*ssa.Phi)
+			if !ok {
+				break
+			}
+			if ph.Comment == name && (bestPhi == nil || bestPhi.Block().Dominates(blk)) {
+				bestPhi = ph
+			}
+		}
+	}
+	if bestPhi != nil && (best == nil || best.Block().Dominates(bestPhi.Block())) {
+		if _, ok := vc.vals[bestPhi]; ok {
+			return vc.fromVal(vc.val(bestPhi), bestPhi.Type())
+		}
+	}
 	if best == nil {
 		return nil
 	}
@@ -350,15 +389,20 @@ func (vc *FuncVC) eval(env *Env, e Expr) *CVal {
 	case *EIdent:
 		return vc.lookupIdent(env, x.Name)
 	case *ECond:
-		c := vc.eval(env, x.C)
+		nc := *env
+		nc.pol = 0
+		c := vc.eval(&nc, x.C)
 		a, b := vc.eval(env, x.A), vc.eval(env, x.B)
 		a, b = vc.unifyNil(a, b)
 		return &CVal{T: Ite(c.T, a.T, b.T), Typ: a.Typ}
 	case *EUnary:
+		if x.Op == "!" {
+			n := *env
+			n.pol = -env.pol
+			return &CVal{T: Not(vc.eval(&n, x.X).T)}
+		}
 		v := vc.eval(env, x.X)
 		switch x.Op {
-		case "!":
-			return &CVal{T: Not(v.T)}
 		case "-":
 			return &CVal{T: T(app("-", v.T), v.T.Sort), Typ: v.Typ}
 		case "*":
@@ -377,23 +421,7 @@ func (vc *FuncVC) eval(env *Env, e Expr) *CVal {
 	case *EBinary:
 		return vc.evalBinary(env, x)
 	case *EQuant:
-		n := env.child()
-		var binders []string
-		for _, b := range x.Vars {
-			vc.seq++
-			name := sym(fmt.Sprintf("q!%s!%d", b.Name, vc.seq))
-			sort, typ := vc.binderSort(b.Type)
-			binders = append(binders, fmt.Sprintf("(%s %s)", name, sort))
-			n.vars[b.Name] = &CVal{T: T(name, sort), Typ: typ}
-		}
-		vc.quantDepth++
-		body := vc.eval(n, x.Body)
-		vc.quantDepth--
-		q := "exists"
-		if x.Forall {
-			q = "forall"
-		}
-		return &CVal{T: T(fmt.Sprintf("(%s (%s) %s)", q, strings.Join(binders, " "), body.T.S), SBool)}
+		return vc.evalQuant(env, x)
 	case *EField:
 		return vc.evalField(env, x)
 	case *EIndex:
@@ -443,9 +471,18 @@ func (vc *FuncVC) evalBinary(env *Env, x *EBinary) *CVal {
 	case "||":
 		return &CVal{T: Or(vc.eval(env, x.X).T, vc.eval(env, x.Y).T)}
 	case "==>":
-		return &CVal{T: Implies(vc.eval(env, x.X).T, vc.eval(env, x.Y).T)}
+		n := *env
+		n.pol = -env.pol
+		return &CVal{T: Implies(vc.eval(&n, x.X).T, vc.eval(env, x.Y).T)}
 	case "<==>":
-		return &CVal{T: Eq(vc.eval(env, x.X).T, vc.eval(env, x.Y).T)}
+		n := *env
+		n.pol = 0
+		return &CVal{T: Eq(vc.eval(&n, x.X).T, vc.eval(&n, x.Y).T)}
+	}
+	if env.pol != 0 {
+		n := *env
+		n.pol = 0
+		env = &n
 	}
 	a, b := vc.eval(env, x.X), vc.eval(env, x.Y)
 	switch x.Op {
@@ -757,14 +794,25 @@ func (vc *FuncVC) evalCall(env *Env, x *ECall) *CVal {
 			}
 		}
 		_, es := arrayParts(sort)
-		return &CVal{T: Select(env.st.get(comp), arg(1).T, es)}
+		return &CVal{T: Select(env.st.get(comp), arg(1).T, es), Typ: vc.logTypes[comp]}
+	case "outer":
+		if env.loop == nil {
+			panic(fmt.Errorf("outer() outside a loop invariant"))
+		}
+		n := *env
+		n.loop = env.loop.parent
+		n.phiEdge = -1
+		return vc.eval(&n, x.Args[0])
+	case "strings.HasPrefix", "strings.HasSuffix":
+		s0, p0 := arg(0), arg(1)
+		return &CVal{T: vc.hasAffix(s0.T, p0.T, p0.Lit, name == "strings.HasSuffix")}
 	case "fresh":
 		v := arg(0)
 		ref := v.T
 		if v.T.Sort == SSlice {
 			ref = T(app("s_arr", v.T), SInt)
 		}
-		return &CVal{T: And(Not(Eq(ref, IntLit(0))), Not(Select(env.old.get("alloc"), ref, SBool)))}
+		return &CVal{T: And(Not(Eq(ref, IntLit(0))), Not(vc.isAlloc(env.old, ref)))}
 	case "typeis":
 		v := arg(0)
 		s, ok := x.Args[1].(*EStr)
@@ -792,6 +840,13 @@ func (vc *FuncVC) evalCall(env *Env, x *ECall) *CVal {
 	if m, ok := vc.P.CS.Macros[name]; ok {
 		if len(m.Params) != len(x.Args) {
 			panic(fmt.Errorf("spec %s: %d arguments expected", name, len(m.Params)))
+		}
+		if m.IsFun {
+			var args []*CVal
+			for i := range x.Args {
+				args = append(args, arg(i))
+			}
+			return vc.funApp(env, m, args)
 		}
 		n := env.child()
 		if env.depth > 40 {
@@ -860,4 +915,200 @@ func (vc *FuncVC) typeIDByName(name string) Term {
 	id := len(vc.typeIDs) + 1
 	vc.typeIDs[name] = id
 	return IntLit(int64(id))
+}
+
+// evalQuant evaluates a quantifier. Top-level existentials get special care
+// (DESIGN §2.2, witness candidates): an assumed existential is skolemised with
+// fresh constants, which are remembered under the binder names; an existential
+// that has to be proved is offered those constants and the clause's @try hints
+// as candidate witnesses (a disjunction that implies the existential).
+func (vc *FuncVC) evalQuant(env *Env, x *EQuant) *CVal {
+	key := ""
+	for _, b := range x.Vars {
+		key += b.Name + ","
+	}
+	hypLike := (!env.goal && env.pol == 1) || (env.goal && env.pol == -1)
+	goalLike := (env.goal && env.pol == 1) || (!env.goal && env.pol == -1)
+	if !x.Forall && vc.quantDepth == 0 && hypLike {
+		n := env.child()
+		var tuple []Term
+		for _, b := range x.Vars {
+			sort, typ := vc.binderSort(b.Type)
+			c := vc.fresh("sk!"+b.Name, sort)
+			n.vars[b.Name] = &CVal{T: c, Typ: typ}
+			tuple = append(tuple, c)
+		}
+		vc.skolems[key] = append(vc.skolems[key], tuple)
+		return &CVal{T: vc.eval(n, x.Body).T}
+	}
+	n := env.child()
+	var binders []string
+	for _, b := range x.Vars {
+		vc.seq++
+		name := sym(fmt.Sprintf("q!%s!%d", b.Name, vc.seq))
+		sort, typ := vc.binderSort(b.Type)
+		binders = append(binders, fmt.Sprintf("(%s %s)", name, sort))
+		n.vars[b.Name] = &CVal{T: T(name, sort), Typ: typ}
+	}
+	vc.quantDepth++
+	body := vc.eval(n, x.Body)
+	vc.quantDepth--
+	q := "exists"
+	if x.Forall {
+		q = "forall"
+	}
+	res := T(fmt.Sprintf("(%s (%s) %s)", q, strings.Join(binders, " "), body.T.S), SBool)
+	if !x.Forall && vc.quantDepth == 0 && goalLike {
+		alts := []Term{res}
+		cands := append([][]Term{}, vc.skolems[key]...)
+		for _, h := range x.Hints {
+			if len(h) != len(x.Vars) {
+				panic(fmt.Errorf("@try: %d expressions for %d binders", len(h), len(x.Vars)))
+			}
+			var tuple []Term
+			he := *env
+			he.pol = 0
+			for _, e := range h {
+				tuple = append(tuple, vc.eval(&he, e).T)
+			}
+			cands = append(cands, tuple)
+		}
+		if len(cands) > 12 {
+			cands = cands[len(cands)-12:]
+		}
+		for _, tuple := range cands {
+			m := env.child()
+			for i, b := range x.Vars {
+				_, typ := vc.binderSort(b.Type)
+				m.vars[b.Name] = &CVal{T: tuple[i], Typ: typ}
+			}
+			alts = append(alts, vc.eval(m, x.Body).T)
+		}
+		res = Or(alts...)
+	}
+	return &CVal{T: res}
+}
+
+// funApp applies a named abstraction (`fun`): an uninterpreted SMT function with
+// a definitional axiom, so that invariants stay small and have good triggers.
+// Two applications share the function symbol iff their expanded bodies (which
+// mention the heap versions they read) are textually equal.
+func (vc *FuncVC) funApp(env *Env, m *SpecMacro, args []*CVal) *CVal {
+	n := env.child()
+	n.pol = 0
+	var binders, sorts []string
+	var formals []Term
+	for i, p := range m.Params {
+		var sort string
+		var typ types.Type
+		if m.Types[i] == "" {
+			sort, typ = args[i].T.Sort, args[i].Typ
+		} else {
+			typ = vc.resolveType(m.Types[i], m.Pkg)
+			sort = vc.sortOf(typ)
+		}
+		if args[i].SRef {
+			panic(fmt.Errorf("fun %s: struct object passed for %s", m.Name, p))
+		}
+		if args[i].IsNil {
+			args[i] = &CVal{T: nilFor(sort), Typ: typ}
+		}
+		if args[i].T.Sort != sort {
+			if sort == SReal && args[i].T.Sort == SInt {
+				args[i] = &CVal{T: ToReal(args[i].T), Typ: typ}
+			} else {
+				panic(fmt.Errorf("fun %s: argument %s has sort %s, want %s", m.Name, p, args[i].T.Sort, sort))
+			}
+		}
+		name := sym(fmt.Sprintf("fa!%d", i))
+		binders = append(binders, fmt.Sprintf("(%s %s)", name, sort))
+		sorts = append(sorts, sort)
+		formals = append(formals, T(name, sort))
+		n.vars[p] = &CVal{T: T(name, sort), Typ: typ}
+	}
+	vc.quantDepth++
+	body := vc.eval(n, m.Body)
+	vc.quantDepth--
+	key := m.Name + "|" + body.T.S
+	f, ok := vc.funCache[key]
+	if !ok {
+		f = vc.declFun(fmt.Sprintf("fun!%s!%d", m.Name, len(vc.funCache)), sorts, body.T.Sort)
+		vc.funCache[key] = f
+		call := T(f, body.T.Sort)
+		if len(formals) > 0 {
+			call = T(app(f, formals...), body.T.Sort)
+			vc.emit(fmt.Sprintf("(assert (forall (%s) (! (= %s %s) :pattern (%s))))", strings.Join(binders, " "), call.S, body.T.S, call.S))
+		} else {
+			vc.assume(Eq(call, body.T))
+		}
+	}
+	var ts []Term
+	for _, a := range args {
+		ts = append(ts, a.T)
+	}
+	if len(ts) == 0 {
+		return &CVal{T: T(f, body.T.Sort), Typ: body.Typ}
+	}
+	return &CVal{T: T(app(f, ts...), body.T.Sort), Typ: body.Typ}
+}
+
+// resolveType resolves a Go type expression written in a contract, relative to package pkgPath.
+func (vc *FuncVC) resolveType(src, pkgPath string) types.Type {
+	src = strings.TrimSpace(src)
+	switch {
+	case strings.HasPrefix(src, "[]"):
+		return types.NewSlice(vc.resolveType(src[2:], pkgPath))
+	case strings.HasPrefix(src, "*"):
+		return types.NewPointer(vc.resolveType(src[1:], pkgPath))
+	case strings.HasPrefix(src, "map["):
+		depth := 0
+		for i := 3; i < len(src); i++ {
+			switch src[i] {
+			case '[':
+				depth++
+			case ']':
+				depth--
+				if depth == 0 {
+					return types.NewMap(vc.resolveType(src[4:i], pkgPath), vc.resolveType(src[i+1:], pkgPath))
+				}
+			}
+		}
+	}
+	switch src {
+	case "real":
+		return types.Typ[types.Float64]
+	case "interface{}", "any":
+		return types.NewInterfaceType(nil, nil)
+	}
+	if obj := types.Universe.Lookup(src); obj != nil {
+		if tn, ok := obj.(*types.TypeName); ok {
+			return tn.Type()
+		}
+	}
+	var pkg *types.Package
+	name := src
+	if i := strings.LastIndex(src, "."); i >= 0 {
+		pn := src[:i]
+		name = src[i+1:]
+		if sp := vc.P.SSAPkgs[pkgPath]; sp != nil {
+			for _, imp := range sp.Pkg.Imports() {
+				if imp.Name() == pn || imp.Path() == pn {
+					pkg = imp
+				}
+			}
+		}
+		if pkg == nil {
+			pkg = vc.knownPkg(pn)
+		}
+	} else if sp := vc.P.SSAPkgs[pkgPath]; sp != nil {
+		pkg = sp.Pkg
+	}
+	if pkg != nil {
+		if obj := pkg.Scope().Lookup(name); obj != nil {
+			if tn, ok := obj.(*types.TypeName); ok {
+				return tn.Type()
+			}
+		}
+	}
+	panic(fmt.Errorf("cannot resolve type %q (package %s)", src, pkgPath))
 }
